@@ -460,7 +460,7 @@ func efTpl(c *Ctx, a *flAgg) {
 		a.und("EF-tpl", "indexHTML", "template constant not found", token.NoPos)
 		return
 	}
-	trees, err := parse.Parse("t", src, "{{", "}}", map[string]interface{}{"funcClass": 1, "minus": 1, "pkgURL": 1, "srcURL": 1, "symbol": 1},
+	trees, err := parse.Parse("t", src, "{{", "}}", funcMapNames(c),
 		map[string]interface{}{"and": 1, "or": 1, "not": 1, "len": 1, "index": 1, "eq": 1, "ne": 1, "lt": 1, "le": 1, "gt": 1, "ge": 1, "printf": 1, "print": 1, "println": 1, "html": 1, "js": 1, "urlquery": 1, "call": 1, "slice": 1})
 	if err != nil {
 		a.bad("EF-tpl", "indexHTML/parse", "the template does not parse: "+err.Error(), token.NoPos)
